@@ -151,8 +151,7 @@ def fmtLimS (bits : Nat) (isBool : Bool) (l : Spec.IntLimits) : String :=
   items [("sizeof", toString (bits / 8)), ("is_specialized", "1"), ("is_integer", "1"), ("is_exact", "1"), ("radix", "2"),
          ("is_bounded", "1"), ("is_signed", b2s l.isSigned), ("digits", toString l.digits), ("digits10", toString l.digits10),
          ("min", toString l.min), ("max", toString l.max), ("lowest", toString l.lowest), ("is_modulo", b2s l.isModulo),
-         -- whether `bool` arithmetic "traps" is answered differently by the implementations (libstdc++: 1)
-         ("traps", if isBool then "*" else "1")]
+         ("traps", b2s (Spec.intTraps isBool))]
 
 /-! ### ratio -/
 
